@@ -55,7 +55,9 @@ pub fn gen_len(ch: &mut Ch, max: usize) -> usize {
 /// Option sets an application may put on its replies; chosen to move the
 /// overhead across the 13 / 269 codec thresholds.
 pub fn gen_resp_opts(ch: &mut Ch) -> Vec<(u16, Vec<Vec<u8>>)> {
-    match ch.weighted(&[35, 15, 10, 10, 10, 10, 10, 6], "ropts") {
+    match ch.weighted(&[35, 15, 10, 10, 10, 10, 10, 6, 8], "ropts") {
+        // a notification-style reply: Observe, Max-Age, ETag
+        8 => vec![(6, vec![vec![0x01, 0x02]]), (14, vec![vec![30]]), (4, vec![vec![0xAA]])],
         0 => vec![],
         1 => vec![(4, vec![vec![0xE7, 0x01, 0x02, 0x03]]), (12, vec![vec![42]])],
         2 => vec![(8, vec![b"loc".to_vec(), b"ation".to_vec(), b"p".to_vec()])],
